@@ -366,7 +366,10 @@ func (e *Engine) heapFieldKey(n string) string {
 		return ""
 	}
 	tn, fn := n[:i], n[i+1:]
-	for _, p := range e.Pkgs {
+	for _, p := range e.Prog.AllPackages() {
+		if !strings.Contains(tn, p.Pkg.Name()+".") {
+			continue
+		}
 		for _, m := range p.Members {
 			if t, ok := m.(*ssa.Type); ok {
 				if e.W.typeString(t.Type()) == tn {
